@@ -439,17 +439,17 @@ func genPlan(rng *hx.Rng, w *world, g, n int, allowClose bool) []call {
 			c.kind, c.key, c.dirTok, c.stop = "iterk", key[:rng.Intn(len(key))], hx.Pick(rng, []string{"fwd", "bwd", "def"}), rng.Intn(3)
 		case x < 99:
 			c.kind = "commit"
-			used := map[string]bool{}
 			for j := rng.Range(1, 3); j > 0; j-- {
 				k := hx.Pick(rng, ks)
-				if used[k] {
-					continue
-				}
-				used[k] = true
-				if rng.Chance(2, 3) {
+				switch y := rng.Intn(6); {
+				case y < 3:
 					c.writes = append(c.writes, call{kind: "set", key: k, val: val()})
-				} else {
+				case y < 4:
 					c.writes = append(c.writes, call{kind: "del", key: k})
+				case y < 5: // Delete then Set of one key: the batch's effect on the key is the Set alone
+					c.writes = append(c.writes, call{kind: "del", key: k}, call{kind: "set", key: k, val: val()})
+				default:
+					c.writes = append(c.writes, call{kind: "set", key: k, val: val()}, call{kind: "del", key: k})
 				}
 			}
 		default:
@@ -592,7 +592,15 @@ func (w *world) exec(c *call, inCallback func()) []*hop {
 		err = b.Commit()
 		ret := w.clock.Add(1)
 		var out []*hop
-		for _, wr := range c.writes {
+		// the batch's effect per key is its LAST call for that key (C04: last operation per key wins), applied as one write
+		last := map[string]int{}
+		for i, wr := range c.writes {
+			last[wr.key] = i
+		}
+		for i, wr := range c.writes {
+			if last[wr.key] != i {
+				continue
+			}
 			h := &hop{inv: inv, ret: ret, kind: wr.kind, key: vr.realm + wr.key, val: wr.val, out: errAns(err)}
 			h.mayApply = w.flush && h.out == "closed"
 			out = append(out, h)
@@ -776,6 +784,266 @@ func runFlushClose(rng *hx.Rng, r *hx.Run) result {
 	return res
 }
 
+// runReaders: read-only phase.  Eight goroutines hammer Get/Has on their OWN keys (one present, one absent each) through ONE
+// view created by two nested WithExtendedRealm calls, against a content that nobody changes.  Every answer must be the one
+// the fixed content gives; the emitted history (the content's Sets, every wrong answer, a few right ones) is decided by the
+// checkers like any other.  (Readers hold only read locks: anything they share besides the map is unprotected.)
+func runReaders(rng *hx.Rng, r *hx.Run) result {
+	wrap := rng.Intn(4)
+	res := result{desc: fmt.Sprintf("readers wrap=%d", wrap)}
+	w := newWorld(rng, wrap)
+	root := w.views[0].v
+	v1, err := root.WithExtendedRealm([]byte{0xaa})
+	if err != nil {
+		panic(err)
+	}
+	v2, err := v1.WithExtendedRealm([]byte{0xbb})
+	if err != nil {
+		panic(err)
+	}
+	w.views = []viewRec{{root, ""}, {v2, "\xaa\xbb"}}
+	const g = 8
+	iters := 1500
+	for i := 0; i < g; i++ {
+		c := call{kind: "set", view: 0, key: "\xaa\xbb" + string([]byte{byte(0x10 + i), 0x01}), val: string([]byte{byte(i + 1), 0x01})}
+		res.ops = append(res.ops, w.exec(&c, nil)...)
+	}
+	bad := make([][]*hop, g)
+	good := make([][]*hop, g)
+	start := make(chan struct{})
+	var wg sync.WaitGroup
+	for i := 0; i < g; i++ {
+		wg.Add(1)
+		go func(i int) {
+			defer wg.Done()
+			present := string([]byte{byte(0x10 + i), 0x01})
+			absent := string([]byte{byte(0x10 + i), 0x02})
+			wantVal := "val " + hx.Hex([]byte{byte(i + 1), 0x01})
+			calls := []call{{kind: "get", view: 1, key: present}, {kind: "has", view: 1, key: absent},
+				{kind: "has", view: 1, key: present}, {kind: "get", view: 1, key: absent}}
+			want := []string{wantVal, "false", "true", "notfound"}
+			<-start
+			for n := 0; n < iters; n++ {
+				j := n % 4
+				ops := w.exec(&calls[j], nil)
+				if ops[0].out != want[j] {
+					if len(bad[i]) < 3 {
+						bad[i] = append(bad[i], ops...)
+					}
+				} else if len(good[i]) < 4 {
+					good[i] = append(good[i], ops...)
+				}
+			}
+		}(i)
+	}
+	close(start)
+	wg.Wait()
+	nbad := 0
+	for i := 0; i < g; i++ {
+		res.ops = append(res.ops, good[i]...)
+		res.ops = append(res.ops, bad[i]...)
+		nbad += len(bad[i])
+	}
+	if nbad > 0 {
+		o := firstOf(bad)
+		r.Fail("fixed-content", fmt.Sprintf("read-only phase (%s): %s although nobody writes; content: key i -> [i+1 01] for i<8 under aabb", res.desc, o.line()),
+			map[string]string{"oracle": "fixed-content", "scenario": "readers", "op": o.kind})
+	}
+	r.Count("scenario:readers")
+	r.CountN("readers-wrong-answers", nbad)
+
+	return res
+}
+
+func firstOf(xs [][]*hop) *hop {
+	for _, x := range xs {
+		if len(x) > 0 {
+			return x[0]
+		}
+	}
+
+	return nil
+}
+
+// runTorn: one writer overwrites ONE key with same-length 4 KiB values (each filled with one generation byte) through one
+// view; three readers Get the key through ANOTHER view.  Every value read must be uniform.  The emitted history is compact:
+// around every non-uniform read the writer's Sets that can matter for it; otherwise a short prefix of the run.
+func runTorn(rng *hx.Rng, r *hx.Run) result {
+	wrap := rng.Intn(4)
+	res := result{desc: fmt.Sprintf("torn wrap=%d", wrap)}
+	w := newWorld(rng, wrap)
+	gens := 300
+	const size = 4096
+	fill := func(b byte) string { return strings.Repeat(string([]byte{b}), size) }
+	var sets []*hop
+	readers := 3
+	bad := make([][]*hop, readers)
+	early := make([][]*hop, readers)
+	var done atomic.Bool
+	start := make(chan struct{})
+	var wg sync.WaitGroup
+	for i := 0; i < readers; i++ {
+		wg.Add(1)
+		go func(i int) {
+			defer wg.Done()
+			c := call{kind: "get", view: 0, key: "\x01\x00"}
+			<-start
+			for n := 0; !done.Load(); n++ {
+				ops := w.exec(&c, nil)
+				o := ops[0]
+				uniform := true
+				if strings.HasPrefix(o.out, "val ") {
+					v := hx.UnHex(o.out[4:])
+					for _, b := range v {
+						if b != v[0] {
+							uniform = false
+
+							break
+						}
+					}
+					uniform = uniform && len(v) == size
+				}
+				if !uniform && len(bad[i]) < 1 {
+					bad[i] = append(bad[i], o)
+				} else if n < 2 {
+					early[i] = append(early[i], o)
+				}
+			}
+		}(i)
+	}
+	close(start)
+	for gnr := 1; gnr <= gens; gnr++ {
+		c := call{kind: "set", view: 1, key: "\x00", val: fill(byte(gnr%250 + 1))}
+		sets = append(sets, w.exec(&c, nil)...)
+	}
+	done.Store(true)
+	wg.Wait()
+	nbad := 0
+	keep := map[int]bool{0: true, 1: true, 2: true}
+	for i := range bad {
+		for _, o := range bad[i] {
+			nbad++
+			res.ops = append(res.ops, o)
+			lastBefore := -1
+			for j, st := range sets {
+				if st.ret < o.inv {
+					lastBefore = j
+				}
+				if st.inv < o.ret && st.ret > o.inv {
+					keep[j] = true
+				}
+			}
+			// everything up to the read matters only through the last Sets completed before it
+			for j := lastBefore - 1; j <= lastBefore; j++ {
+				if j >= 0 {
+					keep[j] = true
+				}
+			}
+		}
+	}
+	if nbad == 0 {
+		for i := range early {
+			for _, o := range early[i] {
+				if len(sets) > 3 && o.ret < sets[3].inv {
+					res.ops = append(res.ops, o)
+				}
+			}
+		}
+	} else {
+		// a reduced history must stay a history: keep a contiguous run of Sets from the first kept one
+		first, lastK := len(sets), 0
+		for j := range keep {
+			if j > 2 && j < first {
+				first = j
+			}
+			if j > lastK {
+				lastK = j
+			}
+		}
+		for j := first; j <= lastK && j < len(sets); j++ {
+			keep[j] = true
+		}
+		delete(keep, 0)
+		delete(keep, 1)
+		delete(keep, 2)
+		o := firstOf(bad)
+		r.Fail("uniform-value", fmt.Sprintf("Get returned a value mixing several generations of same-length overwrites (%s): first bytes %s … last bytes %s",
+			res.desc, o.out[4:12], o.out[len(o.out)-8:]), map[string]string{"oracle": "torn-value", "scenario": "torn", "op": "get"})
+	}
+	for j, st := range sets {
+		if keep[j] {
+			res.ops = append(res.ops, st)
+		}
+	}
+	r.Count("scenario:torn")
+	r.CountN("torn-values", nbad)
+
+	return res
+}
+
+// runBatchFlip: a key that is always present.  One writer commits batches that call Delete(k) and then Set(k, v) (sometimes
+// the other way round on a second key); readers Has / Get / IterateKeys the keys through another view.  A batch's effect on
+// a key is its last call for that key, as ONE write: the first key must never be seen missing.
+func runBatchFlip(rng *hx.Rng, r *hx.Run) result {
+	wrap := rng.Intn(4)
+	res := result{desc: fmt.Sprintf("batchflip wrap=%d", wrap)}
+	w := newWorld(rng, wrap)
+	commits := 120
+	init := []call{{kind: "set", view: 1, key: "\xff\x00", val: "\xee\x00"}, {kind: "set", view: 1, key: "\xff\x01", val: "\xee\x01"}}
+	for i := range init {
+		res.ops = append(res.ops, w.exec(&init[i], nil)...)
+	}
+	readers := 3
+	recs := make([][]*hop, readers)
+	var done atomic.Bool
+	start := make(chan struct{})
+	var wg sync.WaitGroup
+	missing := atomic.Int64{}
+	for i := 0; i < readers; i++ {
+		wg.Add(1)
+		go func(i int) {
+			defer wg.Done()
+			view := []int{0, 2, len(w.views) - 1}[i] // root, the 01ff view, (a second object of) the 01 view
+			strip := len(w.views[view].realm)
+			k0 := "\x01\xff\x00"[strip:]
+			calls := []call{{kind: "has", view: view, key: k0}, {kind: "get", view: view, key: k0},
+				{kind: "iterk", view: view, key: "", dirTok: "fwd"}, {kind: "has", view: view, key: "\x01\xff\x01"[strip:]}}
+			<-start
+			for n := 0; !done.Load() && n < 250; n++ {
+				ops := w.exec(&calls[(n+i)%4], nil)
+				recs[i] = append(recs[i], ops...)
+				o := ops[0]
+				if (o.kind == "has" && o.key == "\x01\xff\x00" && o.out == "false") || (o.kind == "get" && o.out == "notfound") ||
+					(o.kind == "iterk" && !strings.Contains(o.out, hx.Hex([]byte("\x01\xff\x00"[strip:])))) {
+					missing.Add(1)
+				}
+			}
+		}(i)
+	}
+	close(start)
+	var wrecs []*hop
+	for n := 1; n <= commits; n++ {
+		c := call{kind: "commit", view: 1, writes: []call{{kind: "del", key: "\xff\x00"},
+			{kind: "set", key: "\xff\x00", val: string([]byte{0x77, byte(n)})}}}
+		if n%3 == 0 {
+			c.writes = append(c.writes, call{kind: "set", key: "\xff\x01", val: string([]byte{0x78, byte(n)})}, call{kind: "del", key: "\xff\x01"})
+		} else if n%3 == 1 {
+			c.writes = append(c.writes, call{kind: "del", key: "\xff\x01"}, call{kind: "set", key: "\xff\x01", val: string([]byte{0x79, byte(n)})})
+		}
+		wrecs = append(wrecs, w.exec(&c, nil)...)
+	}
+	done.Store(true)
+	wg.Wait()
+	res.ops = append(res.ops, wrecs...)
+	for _, rs := range recs {
+		res.ops = append(res.ops, rs...)
+	}
+	r.Count("scenario:batchflip")
+	r.CountN("batchflip-key-seen-missing", int(missing.Load()))
+
+	return res
+}
+
 // runSnapshot: forced schedule.  An Iterate consumer is parked inside its first call while other
 // goroutines delete / overwrite / add entries of the iterated range and return; the iteration must
 // still report its snapshot (and must not block the writers).
@@ -921,6 +1189,9 @@ func emit(r *hx.Run, sub uint64, res result) {
 }
 
 func main() {
+	if runtime.GOMAXPROCS(0) < 4 {
+		runtime.GOMAXPROCS(4) // the read-only, torn-value and batch scenarios need goroutines that really run in parallel
+	}
 	r := hx.Start()
 	r.Rule = "stress histories of 2..16 goroutines x 6..40 calls on 4 full keys seen through 3-4 shared views of realms '', 01, 01ff " +
 		"(bare mapdb / flushkv / debug / flushkv∘debug; Close in a quarter of the histories) + forced-schedule scenarios (snapshot; " +
@@ -951,6 +1222,12 @@ func main() {
 			res = runSnapshot(rng, r)
 		} else if i%50 == 3 {
 			res = runFlushClose(rng, r)
+		} else if i%40 == 11 {
+			res = runReaders(rng, r)
+		} else if i%80 == 21 {
+			res = runTorn(rng, r)
+		} else if i%40 == 29 {
+			res = runBatchFlip(rng, r)
 		} else {
 			res = runStress(rng, r)
 		}
